@@ -220,10 +220,10 @@ PROPS = {
         "race": True,
     },
     "C12": {
-        "level_text": "Contract clauses (unregistered = error, balances follow the wallet, trial migrated exactly once and shared, active-host query contract, statistics = true counts, ledger effect of every operation, well-formedness of every reachable store) are Lean theorems about the executable reference model of the documented store contract, for all states and arguments; both drivers are compared with that model op by op on generated histories, so a driver that deviates from the other deviates from the model.",
+        "level_text": "Contract clauses (unregistered = error, balances follow the wallet, trial migrated exactly once and shared, active-host query contract, statistics = true counts, ledger effect of every operation, well-formedness of every reachable store) are Lean theorems about the executable reference model of the documented store contract, for all states and arguments; both drivers are compared with that model op by op on generated histories, so a driver that deviates from the other deviates from the model. Refinement (Props/C12R.lean): each driver's methods are transcribed line by line (Model/Drivers.lean: badger's order of key reads, memory's peers-inside-the-node-record layout and map defaults) and proved to answer and change state exactly as the contract model on every state reachable by store calls (badger_run_eq, badger_queries_eq under the invariant BInv; memory_run_related under the refinement relation MemR), hence drivers_agree / drivers_agree_keepalive: after any history every query and every keep-alive answers identically through both drivers; both ActiveHosts selection loops satisfy the contract predicate for every iteration order and shuffle (drivers_activeHosts_valid).",
         "level_note": "Theorems are about Model/Store.lean; its tie to memory.go/badger.go is differential (sampled). Trusted: badger transaction atomicity, gob round-trip, the harness's clock bracketing.",
         "technique": "Lean 4 proof over reference model + differential correspondence on both drivers",
-        "lean_modules": ["Vipnode.Props.C12"],
+        "lean_modules": ["Vipnode.Props.C12", "Vipnode.Props.C12R"],
         "streams": store_streams(400, 4000),
         "cross_driver": True,
         "assumptions": ["badger transaction atomicity", "clock readings observed by the harness (LastSeen read back; bracketed reads away from boundaries)"],
